@@ -367,7 +367,7 @@ type SpecDB struct {
 }
 
 var clauseKW = map[string]bool{"requires": true, "ensures": true, "assigns": true, "loop": true, "mode": true,
-	"trusted": true, "pure": true, "inline": true, "props": true, "let": true, "fuel": true, "params": true, "results": true, "where": true, "config": true}
+	"trusted": true, "pure": true, "inline": true, "props": true, "let": true, "fuel": true, "params": true, "results": true, "where": true, "config": true, "cases": true}
 var blockKW = map[string]bool{"spec": true, "func": true, "schema": true, "lemma": true, "table": true, "ufun": true, "witness": true}
 
 // readContractLines extracts //@ lines (also "// @") from a Go file.
@@ -569,6 +569,25 @@ func parseClauseLine(c *Contract, w, rest string) error {
 	case "config":
 		k, v := firstWord(rest)
 		c.Config[k] = v
+	case "cases":
+		// cases <expr> : v1, v2, ...   -- verify the function once per value of <expr> (proof by cases)
+		i := strings.Index(rest, ":")
+		if i < 0 {
+			return fmt.Errorf("cases <expr> : v1, v2, ...")
+		}
+		e, err := ParseExpr(rest[:i])
+		if err != nil {
+			return err
+		}
+		cl := &Clause{Kind: "cases", E: e, Src: rest}
+		for _, s := range splitTop(rest[i+1:]) {
+			v, err := ParseExpr(s)
+			if err != nil {
+				return err
+			}
+			cl.Exprs = append(cl.Exprs, v)
+		}
+		c.Clauses = append(c.Clauses, cl)
 	case "mode":
 		m, r := firstWord(rest)
 		switch m {
